@@ -708,7 +708,13 @@ func (u *connectStreamingUnmarshaler) Unmarshal(message any) *Error {
 	if err := json.Unmarshal(env.Data.Bytes(), &end); err != nil {
 		return errorf(CodeInternal, "unmarshal end stream message: %w", err)
 	}
-	u.trailer = end.Trailer
+	// The peer may have used any casing for the metadata keys, but users look
+	// them up with http.Header's methods, which expect canonical keys.
+	u.trailer = make(http.Header, len(end.Trailer))
+	for key, values := range end.Trailer {
+		canonicalKey := http.CanonicalHeaderKey(key)
+		u.trailer[canonicalKey] = append(u.trailer[canonicalKey], values...)
+	}
 	u.endStreamErr = (*Error)(end.Error)
 	if u.endStreamErr != nil && u.endStreamErr.code == 0 {
 		// The server sent an error without a usable code. An error must never
